@@ -18,6 +18,27 @@ print(g([5, 1, 4, 2]))
 }
 
 VERSION_SENSITIVE_EXTRA = {
+    # string literals in a field BELOW nodes that are not expressions (keyword, comprehension, slice, lambda arguments)
+    "vs_field_literals_below_non_expr_nodes": r'''
+d = {'w': 6, 'k k': 1}
+print(f"{dict(a='x', b='y')}", f"{[w for w in range(3) if str(w) != '1']}", f"{max(range(3), key=lambda c, z='b': (z, -c))}")
+print(f"{[c for c in 'ab']}", f"{ {k: v for k, v in [(1, 'v')]} }", f"{(lambda z='q': z)()}", f"{list(range(3))[len('a'):]}")
+print(f"{ {k: 'v' for k in 'ab'} }|{sorted({c + '!' for c in 'ab'})}|{'abcdef'['a' < 'b':len('abc')]}|{d['k k']:{d['w']}}")
+'''.lstrip("\n"),
+    # printable Latin-1 characters that are not letters, in field literals
+    "vs_field_latin1_symbols": r'''
+t = 21.5
+d = {'§ 1': 'one', '½': 0.5}
+print(f"{str(t) + '°C'}|{d['§ 1']}|{d['½']}|{'×'.join('ab')}|{'¿' + 'que' + '?'}|{'µ±¬'}")
+'''.lstrip("\n"),
+    # an assignment expression in a tuple index next to slices
+    "vs_walrus_in_slice_tuple_index": r'''
+class M:
+    def __getitem__(self, i):
+        return i
+m = M()
+print(m[1:3, (k := 2)], k, m[(j := 1), ::2, (h := j + 1)], h, m[(a := 0):(b := 2), a + b])
+'''.lstrip("\n"),
     # string literals three and four levels deep in f-strings, written with all four kinds of quotes
     # (valid on 3.8; a host before 3.12 has to find four kinds of quotes again)
     "vs_fstring_three_levels": r'''
